@@ -727,6 +727,20 @@ func dispatchReal(in []byte) (any, error) {
 			w.WriteHeader(404)
 		case "/e429":
 			w.WriteHeader(429)
+		case "/e503ra90":
+			// answers that carry advice about when to come back: the retry schedule is the route's, not the target's
+			w.Header().Set("Retry-After", "90")
+			w.WriteHeader(503)
+		case "/e429ra3600":
+			w.Header().Set("Retry-After", "3600")
+			w.WriteHeader(429)
+		case "/e503radate":
+			w.Header().Set("Retry-After", time.Now().Add(time.Hour).UTC().Format(http.TimeFormat))
+			w.WriteHeader(503)
+		case "/e500ra":
+			w.Header().Set("Retry-After", "120")
+			w.Header().Set("X-RateLimit-Reset", "120")
+			w.WriteHeader(500)
 		case "/redir":
 			http.Redirect(w, r, "/ok", http.StatusFound)
 		case "/hang":
@@ -758,6 +772,7 @@ func dispatchReal(in []byte) (any, error) {
 		RecCode  int    `json:"rec_status"`
 		RecErr   bool   `json:"rec_err"`
 		IsPolicy bool   `json:"is_policy"`
+		NextIn   int64  `json:"next_in_ns"` // next_run_at - clock after the settlement (a retried message: its backoff)
 	}
 	var rows []rc
 	cases := []struct {
@@ -771,6 +786,10 @@ func dispatchReal(in []byte) (any, error) {
 		{"e503", srv.URL + "/e503", false, false, time.Second},
 		{"e404", srv.URL + "/e404", false, false, time.Second},
 		{"e429", srv.URL + "/e429", false, false, time.Second},
+		{"e503_retry_after_90", srv.URL + "/e503ra90", false, false, time.Second},
+		{"e429_retry_after_3600", srv.URL + "/e429ra3600", false, false, time.Second},
+		{"e503_retry_after_date", srv.URL + "/e503radate", false, false, time.Second},
+		{"e500_retry_after_120", srv.URL + "/e500ra", false, false, time.Second},
 		{"redirect_not_followed_302", srv.URL + "/redir", false, false, time.Second},
 		{"hang", srv.URL + "/hang", false, false, 60 * time.Millisecond},
 		{"refused", deadURL, false, false, time.Second},
@@ -803,6 +822,7 @@ func dispatchReal(in []byte) (any, error) {
 			if m, ok := c06Lookup(store, "/r", id); ok {
 				r.State = c06StateCode(m.State)
 				r.DeadR = c06ReasonCode(m.DeadReason)
+				r.NextIn = int64(m.NextRunAt.Sub(clk.Now()))
 			}
 			atts, _ := store.ListAttempts(queue.AttemptListRequest{EventID: id, Limit: 10})
 			if len(atts.Items) == 1 {
